@@ -100,6 +100,8 @@ def gen_plan(tape, cfg):
         o = {"op": k}
         if k == "assert" or k in ONESHOT or k == "shortcut":
             o["f"] = bp.gen_term(tape, bp.BOOL, 2, ctx)
+            if k == "shortcut":
+                o["kind"] = tape.choice(["is_sat", "is_valid", "is_unsat"], "shortcut.kind")
         elif k in ("push", "pop"):
             o["n"] = tape.weighted([(5, 1), (2, 2)], "levels")
         if k in ("get_model", "get_values"):
@@ -418,7 +420,10 @@ def execute(plan, tape):
                 extra, sat_mode = [], False
             elif k == "shortcut":
                 f = bp.build(o["f"], env)
-                r = solve_like("shortcut.is_sat", lambda: sc.is_sat(f, portfolio=names, logic=QF_BV), [o["f"]], None)
+                sk = o.get("kind", "is_sat")
+                q = o["f"] if sk != "is_valid" else ["not", o["f"]]
+                r = solve_like("shortcut." + sk, lambda: getattr(sc, sk)(f, portfolio=names, logic=QF_BV), [q], None,
+                               negate=(sk != "is_sat"))
                 if r[0] == "raised":
                     return
             trace.append((k, o.get("n"), model.depth))
